@@ -133,6 +133,14 @@ def int_values(nbytes, signed, tier, small=False):
         b[i] = 0
         s.add(int.from_bytes(b, "little", signed=signed))
     s.add(int.from_bytes(bytes(range(1, nbytes + 1)), "little", signed=signed))
+    if tier == "thorough":
+        # every 16-bit pattern in the low half below a few high-half patterns, and in the high half above a few low patterns
+        mask = (1 << bits) - 1
+        for other in (0x0000, 0x0001, 0x7FFF, 0x8000, 0xFFFF, 0xA5A5):
+            hi = int.from_bytes(other.to_bytes(2, "little") * (nbytes // 2 - 1), "little") << 16
+            for low in range(0x10000):
+                for u in ((hi | low) & mask, ((low << (bits - 16)) | (hi >> 16)) & mask):
+                    s.add(u - (1 << bits) if signed and u >> (bits - 1) else u)
     return sorted(s)
 
 
